@@ -139,6 +139,51 @@ def inv_oracle(vals, line):
     return None if not bad else 'inv(m)*m or m*inv(m) differs from the identity at positions %s' % bad[:6]
 
 
+
+GROUP_DBL = dict(name='dbl', sources=['h_dbl.cpp'], repo_sources=[], driver=None, replay_prefix=('o.c13.cinvd', 'o.c14.angletypes', 'o.c15.dyadic'))
+
+
+def gen_dbl_c13(g, tier):
+    """double-only oracles of C13 (harness group dbl)"""
+    cs = []
+    reps = 2 if tier == 'quick' else 25
+    # complex<double> inverse of well-conditioned integer matrices at extreme overall scales (|z|^2 under- or overflows)
+    def cinvd_ok(vals, line):
+        t = line.split()
+        if not t or t[0] != 'ok' or len(t) != 3: return 'error result ' + line[:100]
+        if t[1] != '1': return 'a well-conditioned non-singular complex matrix was reported singular'
+        import struct
+        r = struct.unpack('<d', struct.pack('<Q', int(t[2], 16)))[0]
+        if not (r <= 1e-9): return 'inv(m) m differs from the identity by %g' % r
+        return None
+    def cdet(m, n):
+        if n == 1: return m[0][0]
+        return sum(((-1) ** j) * m[0][j] * cdet([row[:j] + row[j + 1:] for row in m[1:]], n - 1) for j in range(n))
+    for _ in range(reps * 3):
+        n = g.choice([2, 3, 4])
+        while True:
+            ent = [[complex(g.randint(-3, 3), g.randint(-3, 3)) if g.random() < 0.7 else 0j for _ in range(n)] for _ in range(n)]
+            d = cdet(ent, n)
+            if abs(d) >= 1: break
+        flat = []
+        for row in ent:
+            for z in row: flat += [F(int(z.real)), F(int(z.imag))]
+        for sc in (1.0, 1e-170, 1e-200, 1e155, 1e200, 2.0 ** -600, 2.0 ** 520):
+            cs.append(Case('o.c13.cinvd %d %s %s' % (n, dhex(sc), frs(flat)), 'orc', 'complex-double-inverse-extreme-scale', check=cinvd_ok))
+    return cs
+
+
+def gen_dbl_c14(g, tier):
+    """double-only oracles of C14 (harness group dbl): the angle passed in other arithmetic types"""
+    cs = []
+    n = 8 if tier == 'quick' else 150
+    axes = unit_axes(g, n)
+    for v in axes[:max(4, n // 4)]:
+        for k in (0, 1, 2, -7, 5, 90, g.randint(-30, 30)):
+            cs.append(Case('o.c14.angletypes %s %d' % (frs(v), k), 'orc', 'rotation-angle-types'))
+    return cs
+
+
 C13 = dict(
     id='C13', module='EpsicProofs.Props.C13', gen=gen_C13,
     extra=[(props_mixed.GROUP, lambda g, tier: props_mixed.gen_mixed(g, tier, ['mp.outer', 'mp.direct']))],
@@ -255,6 +300,11 @@ def gen_C14(g, tier):
         cs.append(Case('o.c14.basis %d %s %s' % (k + 1, ' '.join(seq2), frs(g.rats(3))), 'orc', 'basis-sequence'))
         x = g.rats(3)
         cs.append(Case('o.c14.basis %d %s %s' % (k, ' '.join(seq), frs(x)), 'orc', 'basis-sequence-any', check=small_abs(1e-13, x)))
+    # histories with refused settings: whatever basis the object is left in, it is orthonormal and in/out are inverse
+    for _ in range(6 if tier == 'quick' else 150):
+        seq = [g.choice(bas)[1] for _ in range(g.randint(1, 4))] + ['bad' for _ in range(g.randint(1, 2))]
+        x = g.rats(3)
+        cs.append(Case('o.c14.basis %d %s %s' % (len(seq), ' '.join(seq), frs(x)), 'orc', 'basis-sequence-refused-setting', check=small_abs(1e-13, x)))
     # successive elliptical settings that share one of the two angles (a setting must take effect whatever the previous one was)
     def ell(o, e): return 'ell %s %s %s' % (dhex(o), dhex(e), ' '.join(dhex(x) for x in (math.cos(2.0 * o), math.sin(2.0 * o), math.cos(2.0 * e), math.sin(2.0 * e))))
     for _ in range(6 if tier == 'quick' else 200):
